@@ -156,11 +156,13 @@ def ctor_case(case, res):
 
 
 RATE_MENU = [(1 * u.Hz, True), (2.5 * u.MHz, True), (4 / u.s, True), (1e-3 * u.mHz, True), (0 * u.Hz, False), (-1 * u.Hz, False),
-             ([1, 2] * u.Hz, False), (1 * u.s, False), (1.0, False), (None, False)]
+             ([1, 2] * u.Hz, False), (1 * u.s, False), (1.0, False), (None, False), ([10] * u.MHz, False), ([[250]] * u.kHz, False),
+             (np.array(3.0) * u.Hz, True)]
 FC_MENU = [(1 * u.GHz, True), (-3 * u.kHz, True), (0 * u.Hz, True), (7 / u.s, True), (1 * u.m, False), ([1, 2] * u.GHz, False),
-           (5.0, False), (None, False)]
+           (5.0, False), (None, False), ([1.4] * u.GHz, False)]
 START_MENU = [(None, True), (T_OK, True), ("2020-01-01T00:00:00", True), (Time(59000.25, format="mjd", scale="tai"), True),
-              (Time([59000.0, 59001.0], format="mjd"), False), ("garbage", False), (59000.5, False), ([1, 2], False)]
+              (Time([59000.0, 59001.0], format="mjd"), False), ("garbage", False), (59000.5, False), ([1, 2], False),
+              (Time([59000.0], format="mjd"), False)]
 ALIGN_MENU = [("bottom", True), ("center", True), ("top", True), ("Center", False), ("middle", False), (None, False), (0, False),
               ("", False)]
 POL_MENU = [("linear", True), ("circular", True), ("Linear", False), ("lin", False), (None, False), (1, False)]
@@ -203,7 +205,7 @@ def meta_case(case, res):
                 combos.append(({k: val}, ok))
         keys = list(mm)
         for k1, k2 in itertools.combinations(keys, 2):
-            for (v1, o1), (v2, o2) in itertools.product(mm[k1][:4] + mm[k1][-2:], mm[k2][:4] + mm[k2][-2:]):
+            for (v1, o1), (v2, o2) in itertools.product(mm[k1][:4] + mm[k1][-3:-1], mm[k2][:4] + mm[k2][-3:-1]):
                 combos.append(({k1: v1, k2: v2}, o1 and o2))
         for over, ok in combos:
             kw = base_kwargs(cls)
